@@ -411,7 +411,9 @@ Section Prog.
   (* ---- steps 6-7 as a whole *)
   Lemma pg_size_grid st P inp s0 : (existsb (fun g => ai_is_baseline (g_align g)) (ss_items s0) = true -> bl = true) ->
     Forall IOK (ss_items s0) ->
-    PGood (fun r : Sized * bool => SPerm s0 (z_state (fst r))) (m_size_grid st P inp s0).
+    PGood (fun r : Sized * bool => SPerm s0 (z_state (fst r)) /\
+                                   (gi_mode inp = Engine.PerformLayout -> snd r = true) /\ (gi_mode inp = Engine.ComputeSize -> snd r = false))
+          (m_size_grid st P inp s0).
   Proof.
     intros Hb Hi. unfold m_size_grid. cbv zeta.
     set (hb := existsb _ (ss_items s0)) in *.
@@ -424,7 +426,7 @@ Section Prog.
     assert (P2' : Permutation (map g_node (ss_items s2)) (map g_node (ss_items s0))) by (eapply perm_trans; [exact P2|exact P1']).
     pose proof (nodes_IOK _ _ P2' Hi) as H2.
     destruct (container_size P inp _ _) as [bb cb].
-    destruct (gi_mode inp); try (apply PG_ret; exact P2').
+    destruct (gi_mode inp); try (apply PG_ret; split; [exact P2'|split; [discriminate|reflexivity]]).
     - (* PerformLayout *)
       set (s3 := mkSS _ _ _ _ (ss_items s2)).
       eapply PGood_bind with (Q1 := fun r : bool * SState => Permutation (map g_node (ss_items (snd r))) (map g_node (ss_items s0))).
@@ -433,7 +435,7 @@ Section Prog.
         * eapply PGood_bind; [apply pg_rerun_any; exact H2|]. intros [b items'] E. cbn [snd] in E.
           apply PG_ret. cbn [snd ss_set_items ss_items]. rewrite E. exact P2'.
       + intros [rerun s4] P4. cbn [snd] in P4. pose proof (nodes_IOK _ _ P4 Hi) as H4.
-        destruct rerun; [|apply PG_ret; exact P4].
+        destruct rerun; [|apply PG_ret; split; [exact P4|split; [reflexivity|discriminate]]].
         eapply PGood_bind; [apply pg_track_sizing; [exact Hb|exact H4]|]. intros s5 P5. unfold SPerm in P5.
         assert (P5' : Permutation (map g_node (ss_items s5)) (map g_node (ss_items s0))) by (eapply perm_trans; [exact P5|exact P4]).
         pose proof (nodes_IOK _ _ P5' Hi) as H5.
@@ -443,9 +445,9 @@ Section Prog.
           -- eapply PGood_bind; [apply pg_rerun_any; exact H5|]. intros [b items'] E. cbn [snd] in E.
              apply PG_ret. cbn [snd ss_set_items ss_items]. rewrite E. exact P5'.
         * intros [rerun_r s6] P6. cbn [snd] in P6. pose proof (nodes_IOK _ _ P6 Hi) as H6.
-          destruct rerun_r; [|apply PG_ret; exact P6].
+          destruct rerun_r; [|apply PG_ret; split; [exact P6|split; [reflexivity|discriminate]]].
           eapply PGood_bind; [apply pg_track_sizing; [discriminate|exact H6]|]. intros s7 P7. unfold SPerm in P7.
-          apply PG_ret. cbn [fst z_state]. unfold SPerm. eapply perm_trans; [exact P7|exact P6].
+          apply PG_ret. split; [cbn [fst z_state]; unfold SPerm; eapply perm_trans; [exact P7|exact P6]|split; [reflexivity|discriminate]].
     - (* PerformHiddenLayout: never handed to an algorithm; the model treats it like PerformLayout *)
       set (s3 := mkSS _ _ _ _ (ss_items s2)).
       eapply PGood_bind with (Q1 := fun r : bool * SState => Permutation (map g_node (ss_items (snd r))) (map g_node (ss_items s0))).
@@ -454,7 +456,7 @@ Section Prog.
         * eapply PGood_bind; [apply pg_rerun_any; exact H2|]. intros [b items'] E. cbn [snd] in E.
           apply PG_ret. cbn [snd ss_set_items ss_items]. rewrite E. exact P2'.
       + intros [rerun s4] P4. cbn [snd] in P4. pose proof (nodes_IOK _ _ P4 Hi) as H4.
-        destruct rerun; [|apply PG_ret; exact P4].
+        destruct rerun; [|apply PG_ret; split; [exact P4|split; [reflexivity|discriminate]]].
         eapply PGood_bind; [apply pg_track_sizing; [exact Hb|exact H4]|]. intros s5 P5. unfold SPerm in P5.
         assert (P5' : Permutation (map g_node (ss_items s5)) (map g_node (ss_items s0))) by (eapply perm_trans; [exact P5|exact P4]).
         pose proof (nodes_IOK _ _ P5' Hi) as H5.
@@ -464,9 +466,9 @@ Section Prog.
           -- eapply PGood_bind; [apply pg_rerun_any; exact H5|]. intros [b items'] E. cbn [snd] in E.
              apply PG_ret. cbn [snd ss_set_items ss_items]. rewrite E. exact P5'.
         * intros [rerun_r s6] P6. cbn [snd] in P6. pose proof (nodes_IOK _ _ P6 Hi) as H6.
-          destruct rerun_r; [|apply PG_ret; exact P6].
+          destruct rerun_r; [|apply PG_ret; split; [exact P6|split; [reflexivity|discriminate]]].
           eapply PGood_bind; [apply pg_track_sizing; [discriminate|exact H6]|]. intros s7 P7. unfold SPerm in P7.
-          apply PG_ret. cbn [fst z_state]. unfold SPerm. eapply perm_trans; [exact P7|exact P6].
+          apply PG_ret. split; [cbn [fst z_state]; unfold SPerm; eapply perm_trans; [exact P7|exact P6]|split; [reflexivity|discriminate]].
   Qed.
 End Prog.
 
